@@ -24,6 +24,7 @@ import (
 type c26Case struct {
 	chain, typ string // maker role: in = node initiates swap-in, out = node answers swap-out
 	behave     string // silence | cancel | coop-wrong-key
+	crash      bool   // the node is killed at the quarantine write and restarted
 }
 
 func runC26(r *Run, seed int64, c c26Case) {
@@ -57,6 +58,9 @@ func runC26(r *Run, seed int64, c c26Case) {
 			r.Inconclusive("cannot pre-quarantine: " + err.Error())
 			return
 		}
+	}
+	if !c26SeedPeerSync(r, m, p, q) {
+		return
 	}
 	chain := w.BTC
 	if c.chain == "lbtc" {
@@ -105,8 +109,29 @@ func runC26(r *Run, seed int64, c c26Case) {
 	w.Run()
 	chain.Mine(1)
 	w.Run()
+	if c.crash {
+		// the node is killed right when it is about to write the quarantine entry (before the policy file changes),
+		// and restarted: the refund is on chain either way, the quarantine must still happen
+		fired := false
+		m.OnCrossing = func(k int64, op string) {
+			if op == "policy.suspicious" && !fired {
+				fired = true
+				m.CrashAt, m.CrashFlavor = k, "before"
+			}
+		}
+	}
 	chain.Mine(int(ref.CSV(c.chain, 7)) + 1)
 	w.Run()
+	if c.crash && !m.Alive() {
+		m.CrashAt = 0
+		m.OnCrossing = nil
+		if err := m.Restart(); err != nil {
+			r.Inconclusive("restart after the crash: " + err.Error())
+			return
+		}
+		w.Run()
+		r.Count("crashes_at_quarantine", 1)
+	}
 	chain.Mine(2)
 	w.Run()
 	final := ""
@@ -238,10 +263,35 @@ func runC26(r *Run, seed int64, c c26Case) {
 	}
 }
 
+// c26SeedPeerSync writes the peer-sync records of both peers as they were before the swap (both had answered polls).
+func c26SeedPeerSync(r *Run, m *sim.Node, p, q *sim.Peer) bool {
+	st, err := peersync.NewStore(filepath.Join(m.Dir, "peersync-c26.db"))
+	if err != nil {
+		r.Inconclusive("peersync store: " + err.Error())
+		return false
+	}
+	defer st.Close()
+	ln := &c28LN{connected: map[string]bool{p.ID: true, q.ID: true}, ch: make(chan peersync.CustomMessage)}
+	ln.onSend = func(string, messages.MessageType, []byte) {}
+	nodeID, _ := peersync.NewPeerID(m.ID)
+	inc := m.Inc()
+	ps := peersync.NewPeerSync(nodeID, st, ln, inc.Policy, []string{"btc", "lbtc"}, inc.Premium)
+	payload := mustJSON(map[string]any{"version": 7, "assets": []string{"btc", "lbtc"}, "peer_allowed": true,
+		"btc_swap_in_premium_rate_ppm": 1, "btc_swap_out_premium_rate_ppm": 2, "lbtc_swap_in_premium_rate_ppm": 3, "lbtc_swap_out_premium_rate_ppm": 4})
+	for _, x := range []*sim.Peer{p, q} {
+		id, _ := peersync.NewPeerID(x.ID)
+		ps.VerifProcessMessage(context.Background(), peersync.CustomMessage{From: id, Type: messages.MESSAGETYPE_POLL, Payload: payload})
+	}
+	pid, _ := peersync.NewPeerID(p.ID)
+	if stored, err := st.GetPeerState(pid); err != nil || stored == nil || stored.Capability() == nil {
+		r.Inconclusive("peer-sync seed: the peer's capability was not stored before the swap")
+		return false
+	}
+	return true
+}
+
 func c26PeerSync(r *Run, w *sim.World, m *sim.Node, p, q *sim.Peer, tag, phase string, det func(string) string) {
-	dir, _ := os.MkdirTemp("", "c26ps")
-	defer os.RemoveAll(dir)
-	st, err := peersync.NewStore(filepath.Join(dir, "peersync.db"))
+	st, err := peersync.NewStore(filepath.Join(m.Dir, "peersync-c26.db"))
 	if err != nil {
 		r.Inconclusive("peersync store: " + err.Error())
 		return
@@ -273,8 +323,12 @@ func c26PeerSync(r *Run, w *sim.World, m *sim.Node, p, q *sim.Peer, tag, phase s
 	if sent[p.ID] != 0 {
 		r.Violate("peersync-silent", "C26|peersync-sent-to-quarantined-peer|"+phase, det(fmt.Sprintf("%d peer-sync messages sent to the quarantined peer", sent[p.ID])), nil)
 	}
+	// the record from before the quarantine (rates 1/2/3/4) may stay; the polls of the quarantined peer (10/20/30/40)
+	// must not have been taken
 	if stored, err := st.GetPeerState(pid); err == nil && stored != nil && stored.Capability() != nil {
-		r.Violate("peersync-no-capability", "C26|peersync-stored-capability-of-quarantined-peer|"+phase, det("capability stored"), nil)
+		if v := c28ViewOf(stored.Capability()); v.Rates[0] == 10 || v.Rates[1] == 20 {
+			r.Violate("peersync-no-capability", "C26|peersync-stored-capability-of-quarantined-peer|"+phase, det(fmt.Sprintf("capability stored: %v", v)), nil)
+		}
 	}
 	if stored, err := st.GetPeerState(qid); err != nil || stored == nil || stored.Capability() == nil {
 		r.Inconclusive("peer-sync control peer's capability was not stored")
@@ -290,7 +344,10 @@ func TestC26(t *testing.T) {
 	for _, ch := range []string{"btc", "lbtc"} {
 		for _, ty := range []string{"in", "out"} {
 			for _, b := range []string{"silence", "cancel", "coop-wrong-key"} {
-				cases = append(cases, c26Case{ch, ty, b})
+				cases = append(cases, c26Case{ch, ty, b, false})
+				if b == "silence" || r.Thorough() {
+					cases = append(cases, c26Case{ch, ty, b, true})
+				}
 			}
 		}
 	}
